@@ -35,4 +35,26 @@ func init() {
 	pathSpec["py|StaticMethod.M__get__"] = []string{
 		"[]  -> c.Callable, nil",
 	}
+	// line-at-a-time driver: in continuation mode a non-empty line is only buffered; an empty line (or any line outside continuation mode) compiles buffer+line; an incomplete-input error buffers the line and enters continuation mode; any other outcome leaves continuation mode and clears the buffer before reporting or running  []
+	pathSpec["repl|REPL.Run"] = []string{
+		"[!(r.continuation) && toCompile != \"\" && err != nil && !(strings.Contains(errText, \"unexpected EOF while parsing\")) && !(strings.Contains(errText, \"EOF while scanning triple-quoted string literal\"))] vm.PrintExpr = r.term.Print; defer(func() { vm.PrintExpr = oldPrintExpr }()); Compile(toCompile + \"\\n\", r.prog, py.SingleMode, 0, true); r.continuation = false; r.term.SetPrompt(NormalPrompt); r.previous = lit; r.term.Print(fmt.Sprintf#0) -> nil",
+		"[!(r.continuation) && toCompile != \"\" && err != nil && !(strings.Contains(errText, \"unexpected EOF while parsing\")) && strings.Contains(errText, \"EOF while scanning triple-quoted string literal\") && !(len(stripped) > 0 && stripped[0] == '#')] vm.PrintExpr = r.term.Print; defer(func() { vm.PrintExpr = oldPrintExpr }()); Compile(toCompile + \"\\n\", r.prog, py.SingleMode, 0, true); r.continuation = true; r.previous += string(line) + \"\\n\"; r.term.SetPrompt(ContinuationPrompt) -> nil",
+		"[!(r.continuation) && toCompile != \"\" && err != nil && !(strings.Contains(errText, \"unexpected EOF while parsing\")) && strings.Contains(errText, \"EOF while scanning triple-quoted string literal\") && len(stripped) > 0 && stripped[0] == '#'] vm.PrintExpr = r.term.Print; defer(func() { vm.PrintExpr = oldPrintExpr }()); Compile(toCompile + \"\\n\", r.prog, py.SingleMode, 0, true) -> nil",
+		"[!(r.continuation) && toCompile != \"\" && err != nil && strings.Contains(errText, \"unexpected EOF while parsing\") && !(len(stripped) > 0 && stripped[0] == '#')] vm.PrintExpr = r.term.Print; defer(func() { vm.PrintExpr = oldPrintExpr }()); Compile(toCompile + \"\\n\", r.prog, py.SingleMode, 0, true); r.continuation = true; r.previous += string(line) + \"\\n\"; r.term.SetPrompt(ContinuationPrompt) -> nil",
+		"[!(r.continuation) && toCompile != \"\" && err != nil && strings.Contains(errText, \"unexpected EOF while parsing\") && len(stripped) > 0 && stripped[0] == '#'] vm.PrintExpr = r.term.Print; defer(func() { vm.PrintExpr = oldPrintExpr }()); Compile(toCompile + \"\\n\", r.prog, py.SingleMode, 0, true) -> nil",
+		"[!(r.continuation) && toCompile != \"\" && err == nil && !(py.IsException(py.SystemExit, err))] vm.PrintExpr = r.term.Print; defer(func() { vm.PrintExpr = oldPrintExpr }()); Compile(toCompile + \"\\n\", r.prog, py.SingleMode, 0, true); r.continuation = false; r.term.SetPrompt(NormalPrompt); r.previous = lit; r.Context.RunCode(dyn:py.Compile#0, r.Module.Globals, r.Module.Globals, nil); TracebackDump(err!) -> nil",
+		"[!(r.continuation) && toCompile != \"\" && err == nil && py.IsException(py.SystemExit, err)] vm.PrintExpr = r.term.Print; defer(func() { vm.PrintExpr = oldPrintExpr }()); Compile(toCompile + \"\\n\", r.prog, py.SingleMode, 0, true); r.continuation = false; r.term.SetPrompt(NormalPrompt); r.previous = lit; r.Context.RunCode(dyn:py.Compile#0, r.Module.Globals, r.Module.Globals, nil) -> err!",
+		"[!(r.continuation) && toCompile != \"\" && err == nil] vm.PrintExpr = r.term.Print; defer(func() { vm.PrintExpr = oldPrintExpr }()); Compile(toCompile + \"\\n\", r.prog, py.SingleMode, 0, true); r.continuation = false; r.term.SetPrompt(NormalPrompt); r.previous = lit; r.Context.RunCode(dyn:py.Compile#0, r.Module.Globals, r.Module.Globals, nil) -> nil",
+		"[!(r.continuation) && toCompile == \"\"] vm.PrintExpr = r.term.Print; defer(func() { vm.PrintExpr = oldPrintExpr }()) -> nil",
+		"[r.continuation && line != \"\"] vm.PrintExpr = r.term.Print; defer(func() { vm.PrintExpr = oldPrintExpr }()); r.previous += string(line) + \"\\n\" -> nil",
+		"[r.continuation && line == \"\" && toCompile != \"\" && err != nil && !(strings.Contains(errText, \"unexpected EOF while parsing\")) && !(strings.Contains(errText, \"EOF while scanning triple-quoted string literal\"))] vm.PrintExpr = r.term.Print; defer(func() { vm.PrintExpr = oldPrintExpr }()); Compile(toCompile + \"\\n\", r.prog, py.SingleMode, 0, true); r.continuation = false; r.term.SetPrompt(NormalPrompt); r.previous = lit; r.term.Print(fmt.Sprintf#0) -> nil",
+		"[r.continuation && line == \"\" && toCompile != \"\" && err != nil && !(strings.Contains(errText, \"unexpected EOF while parsing\")) && strings.Contains(errText, \"EOF while scanning triple-quoted string literal\") && !(len(stripped) > 0 && stripped[0] == '#')] vm.PrintExpr = r.term.Print; defer(func() { vm.PrintExpr = oldPrintExpr }()); Compile(toCompile + \"\\n\", r.prog, py.SingleMode, 0, true); r.continuation = true; r.previous += string(line) + \"\\n\"; r.term.SetPrompt(ContinuationPrompt) -> nil",
+		"[r.continuation && line == \"\" && toCompile != \"\" && err != nil && !(strings.Contains(errText, \"unexpected EOF while parsing\")) && strings.Contains(errText, \"EOF while scanning triple-quoted string literal\") && len(stripped) > 0 && stripped[0] == '#'] vm.PrintExpr = r.term.Print; defer(func() { vm.PrintExpr = oldPrintExpr }()); Compile(toCompile + \"\\n\", r.prog, py.SingleMode, 0, true) -> nil",
+		"[r.continuation && line == \"\" && toCompile != \"\" && err != nil && strings.Contains(errText, \"unexpected EOF while parsing\") && !(len(stripped) > 0 && stripped[0] == '#')] vm.PrintExpr = r.term.Print; defer(func() { vm.PrintExpr = oldPrintExpr }()); Compile(toCompile + \"\\n\", r.prog, py.SingleMode, 0, true); r.continuation = true; r.previous += string(line) + \"\\n\"; r.term.SetPrompt(ContinuationPrompt) -> nil",
+		"[r.continuation && line == \"\" && toCompile != \"\" && err != nil && strings.Contains(errText, \"unexpected EOF while parsing\") && len(stripped) > 0 && stripped[0] == '#'] vm.PrintExpr = r.term.Print; defer(func() { vm.PrintExpr = oldPrintExpr }()); Compile(toCompile + \"\\n\", r.prog, py.SingleMode, 0, true) -> nil",
+		"[r.continuation && line == \"\" && toCompile != \"\" && err == nil && !(py.IsException(py.SystemExit, err))] vm.PrintExpr = r.term.Print; defer(func() { vm.PrintExpr = oldPrintExpr }()); Compile(toCompile + \"\\n\", r.prog, py.SingleMode, 0, true); r.continuation = false; r.term.SetPrompt(NormalPrompt); r.previous = lit; r.Context.RunCode(dyn:py.Compile#0, r.Module.Globals, r.Module.Globals, nil); TracebackDump(err!) -> nil",
+		"[r.continuation && line == \"\" && toCompile != \"\" && err == nil && py.IsException(py.SystemExit, err)] vm.PrintExpr = r.term.Print; defer(func() { vm.PrintExpr = oldPrintExpr }()); Compile(toCompile + \"\\n\", r.prog, py.SingleMode, 0, true); r.continuation = false; r.term.SetPrompt(NormalPrompt); r.previous = lit; r.Context.RunCode(dyn:py.Compile#0, r.Module.Globals, r.Module.Globals, nil) -> err!",
+		"[r.continuation && line == \"\" && toCompile != \"\" && err == nil] vm.PrintExpr = r.term.Print; defer(func() { vm.PrintExpr = oldPrintExpr }()); Compile(toCompile + \"\\n\", r.prog, py.SingleMode, 0, true); r.continuation = false; r.term.SetPrompt(NormalPrompt); r.previous = lit; r.Context.RunCode(dyn:py.Compile#0, r.Module.Globals, r.Module.Globals, nil) -> nil",
+		"[r.continuation && line == \"\" && toCompile == \"\"] vm.PrintExpr = r.term.Print; defer(func() { vm.PrintExpr = oldPrintExpr }()) -> nil",
+	}
 }
